@@ -401,7 +401,8 @@ def peg_window_chain(seed, name="pegwin", dups=True):
         if L["ConvLimit"] - 1 <= h <= L["V20"]:
             ids = []
             for i, u in enumerate(users):
-                if (h + i) % 3 != 0:
+                # one request per address within any holding window (so that each address's PEG delta is one request's effect)
+                if (h % 3) == (i % 3) and (h // 3) % 2 == (i // 3) % 2:
                     e = s.convert(h, u, rnd.choice(["pFCT", "pUSD"]), rnd.randint(1, 30) * 10**8, "PEG", track=False)
                     ids.append(e["id"])
             if dups and h + 1 in unrated and ids:
